@@ -69,6 +69,15 @@ def handle (j : Json) : Json :=
     match toNew os with
     | none => Json.str "ValueError"
     | some s => jslot s
+  else if op == "slot_init" then
+    let o := jget j "slot"
+    let rs := fun (x : Json) =>
+      let form := jstr x "form"
+      let l := jarr x "items"
+      if form == "ints" then InitRes.ints (l.map asNat)
+      else if form == "dicts" then InitRes.dicts (l.map (fun y => (jnat y "index", jnat y "occ")))
+      else InitRes.ros (l.map (fun y => (jnat y "index", jnat y "occ")))
+    jslot (slotInit (rs (jget o "cores")) (rs (jget o "gpus")) (jnat o "lfs") (jnat o "mem") (jnat o "node_index") (jstr o "node_name"))
   else if op == "to_new_list" then
     let mk := fun (o : Json) => ({ cores := resOf (jget o "cores"), gpus := resOf (jget o "gpus"), lfs := jnat o "lfs",
                                    mem := jnat o "mem", nodeIndex := jnat o "node_index", nodeName := jstr o "node_name" } : OldSlot)
